@@ -412,7 +412,7 @@ func TestHarness(t *testing.T) {
 		for try := 0; try < 40; try++ {
 			g := &generator{rng: hx.NewRand(seed*1000 + uint64(try)), queues: qs, nextC: 1000, nextK: 1000, nextTok: 1000, focus: focus}
 			lines := append([]string(nil), prefix...)
-			r := &run{drv: drv, noModel: true, onlyProp: only, prev: map[string]string{}, flags: map[string]bool{}, streams: map[int]*streamMon{}, doneTask: map[int]string{}}
+			r := &run{drv: drv, noModel: true, onlyProp: only, prev: map[string]string{}, flags: map[string]bool{}, streams: map[int]*streamMon{}, doneTask: map[int]string{}, syncRet: map[string]int64{}}
 			synctest_run(t, r, func() {
 				for _, l := range lines {
 					r.apply(l)
@@ -446,7 +446,7 @@ func TestHarness(t *testing.T) {
 				res.Count("mismatch-turned-into-failing-input")
 				// shrink in monitor-only mode
 				fails := func(cand []string) bool {
-					r := &run{drv: drv, noModel: true, onlyProp: only, prev: map[string]string{}, flags: map[string]bool{}, streams: map[int]*streamMon{}, doneTask: map[int]string{}}
+					r := &run{drv: drv, noModel: true, onlyProp: only, prev: map[string]string{}, flags: map[string]bool{}, streams: map[int]*streamMon{}, doneTask: map[int]string{}, syncRet: map[string]int64{}}
 					synctest_run(t, r, func() {
 						for _, l := range cand {
 							if r.fail == nil {
@@ -508,13 +508,24 @@ func TestHarness(t *testing.T) {
 		}
 		lines := g.setup()
 		n := 30 + rng.Intn(170)
-		r := &run{drv: drv, prev: map[string]string{}, flags: map[string]bool{}, streams: map[int]*streamMon{}, doneTask: map[int]string{}}
+		r := &run{drv: drv, prev: map[string]string{}, flags: map[string]bool{}, streams: map[int]*streamMon{}, doneTask: map[int]string{}, syncRet: map[string]int64{}}
+		// one history in seven is judged by the monitors alone and lets stream messages
+		// stay "on the wire" (Send blocks until released) while other segments run
+		slow := rng.Chance(1, 7)
+		r.noModel = slow
 		synctest_run(t, r, func() {
+			r.w.slowSends = slow
 			for _, l := range lines {
 				r.apply(l)
 			}
 			for i := 0; i < n && r.fail == nil && !r.tie; i++ {
 				l := g.next(r)
+				if slow && len(r.w.sending) > 0 && rng.Chance(1, 3) {
+					for c := range r.w.sending {
+						l = fmt.Sprintf("0 sendrel %d", c)
+						break
+					}
+				}
 				lines = append(lines, l)
 				r.apply(l)
 			}
@@ -525,6 +536,9 @@ func TestHarness(t *testing.T) {
 		r.finish()
 		res.Evaluations += r.steps
 		res.TracesVsImpl++
+		if slow {
+			res.Count("history-monitor-only-slow-sends")
+		}
 		if r.tie {
 			res.Count("history-discarded-cleanup-tie")
 			continue
